@@ -41,3 +41,14 @@ package httpproxy
 //@ func serverForwardResponses
 //@   callsite Response).Write: !has(resp.Header, "Connection") && !has(resp.Header, "Proxy-Connection") && !has(resp.Header, "Keep-Alive") && !has(resp.Header, "Te") && !has(resp.Header, "Transfer-Encoding") && !has(resp.Header, "Proxy-Authenticate") && !has(resp.Header, "Proxy-Authentication-Info")
 //@   loop 1 break resp.StatusCode >= 200
+
+// ---------------------------------------------------------------------------
+// Server construction (property C07): each configured user's Basic token is made from exactly
+// "username:password" of that user - nothing left over from the previous user's bytes (length, user name and
+// separator are proved; the password bytes only by their length).
+// ---------------------------------------------------------------------------
+//@ func (*ServerConfig).NewProxyServer
+//@   requires !isnil(c)
+//@   callsite EncodeToString: len(arg1) == len(user.Username) + 1 + len(user.Password)
+//@   callsite EncodeToString: forall i int :: 0 <= i && i < len(user.Username) ==> arg1[i] == user.Username[i]
+//@   callsite EncodeToString: arg1[len(user.Username)] == 58
